@@ -87,6 +87,7 @@ func (c07) Gen(r *sim.Rand, c *sim.Case, tier string) {
 		}
 	}
 	c.Tasks = make([][]sim.Op, k)
+	sharedStyle, sharedBase := !Wild && r.Chance(0.15), r.Intn(4)
 	for i, s := range slots {
 		g := world.NewGen(r.Fork())
 		g.Alpha = alpha
@@ -94,10 +95,12 @@ func (c07) Gen(r *sim.Rand, c *sim.Case, tier string) {
 		g.HFOncePerKind, g.RectTablesOnly, g.WellFormedMath = true, true, true
 		g.ObsEvery = 4
 		g.StyleEdits = true
+		g.BigImages = r.Chance(0.2)
 		if !Wild {
 			if i != noteDoc {
 				g.Fam &^= world.FNote
 			}
+			g.SharedStyleIDs = true
 			g.ObsCounts = i == noteDoc // Get*noteCount reads the process-wide registry: only its one user may look
 			if i != listDoc {
 				g.Fam &^= world.FList
@@ -107,6 +110,13 @@ func (c07) Gen(r *sim.Rand, c *sim.Case, tier string) {
 		var ops []sim.Op
 		if r.Chance(0.2) { // the document starts as the result of a Markdown conversion
 			ops = append(ops, sim.Op{K: "md", D: s.slot, I: []int{r.Intn(32)}, S: []sim.Str{sim.Str(g.Markdown(Wild || i == listDoc))}})
+		}
+		if sharedStyle {
+			// every document of this run defines the custom style "Section" - each on another base - and uses it for a paragraph
+			// (what one document's style id means must not depend on what the same id means in another document)
+			ops = append(ops, sim.Op{K: "style.add", D: s.slot, S: []sim.Str{"Section", "custom Section", "paragraph", sim.Str([]string{"Heading1", "Heading2", "Heading3", "Normal"}[(i+sharedBase)%4])}},
+				sim.Op{K: "para", D: s.slot, S: []sim.Str{sim.Str(g.PlainText())}}, sim.Op{K: "p.style", D: s.slot, I: []int{-1}, S: []sim.Str{"Section"}},
+				sim.Op{K: "obs", D: s.slot, I: []int{0}})
 		}
 		ops = append(ops, g.DocOps(s.slot, r.Range(2, 18))...)
 		ops = sprinkleSavesOpt(r, ops, s.slot, r.Range(2, 8), 0.25, 0, false)
@@ -120,6 +130,7 @@ func (c07) Gen(r *sim.Rand, c *sim.Case, tier string) {
 	c.Cfg["imode"] = r.Intn(4) // 0,1 random interleaving; 2 tasks in order; 3 tasks in reverse order
 	c.Cfg["log"] = r.Intn(2)
 	c.Cfg["preempt"] = preemptMean(r)
+	c.Cfg["isolated"] = btoiP(r.Chance(0.08)) // the documents are also executed alone in fresh processes
 }
 
 // ---- observations ----------------------------------------------------------------
@@ -289,24 +300,46 @@ func (c07) Exec(c *sim.Case, env *Env) []sim.Violation {
 
 	// ---- (S) every document alone
 	solo := newC07obs()
-	runSolo := func() {
-		for _, s := range slots {
-			document.VerifResetProcessState()
-			simrt.InstallOrder(c.Order, c.OrderSeed, 0, nil)
-			w := mkWorld(fmt.Sprintf("s%d", s), sim.NewStats(), &sim.Log{}, solo)
-			n := 0
-			for _, t := range c.Tasks {
-				for _, op := range t {
-					if op.D == s {
-						w.Apply(op)
-						n++
+	soloSlot := func(s int, into *c07obs) int {
+		document.VerifResetProcessState()
+		simrt.InstallOrder(c.Order, c.OrderSeed, 0, nil)
+		w := mkWorld(fmt.Sprintf("s%d", s), sim.NewStats(), &sim.Log{}, into)
+		n := 0
+		for _, t := range c.Tasks {
+			for _, op := range t {
+				if op.D == s {
+					w.Apply(op)
+					n++
+				}
+			}
+		}
+		simrt.Uninstall()
+		return n
+	}
+	if env.SoloSlot >= 0 {
+		// this process is the fresh process of an isolated baseline: execute that one document alone and hand the observations back
+		o := newC07obs()
+		soloSlot(env.SoloSlot, o)
+		for i, e := range o.bySlot[env.SoloSlot] {
+			it := SoloObs{Kind: e.kind, Res: e.res}
+			if e.kind == "save" {
+				for _, k := range o.kept {
+					if k.slot == env.SoloSlot && k.step == i {
+						it.Bytes = k.b
 					}
 				}
 			}
-			if n >= 2 {
+			if env.SoloOut != nil {
+				*env.SoloOut = append(*env.SoloOut, it)
+			}
+		}
+		return nil
+	}
+	runSolo := func() {
+		for _, s := range slots {
+			if soloSlot(s, solo) >= 2 {
 				env.Stats.Probe("docs_with_2_ops")
 			}
-			simrt.Uninstall()
 		}
 	}
 
@@ -362,6 +395,36 @@ func (c07) Exec(c *sim.Case, env *Env) []sim.Violation {
 		env.Stats.Probe("cold_concurrent_first")
 	}
 	runSolo()
+
+	// ---- (S') the same documents alone, each in a FRESH PROCESS: the in-process baseline above runs after whatever earlier
+	// runs of this worker process (and, in a cold case, the concurrent phase) left in package-level state that no reset
+	// hook knows about - a cache keyed by something two documents share, say. Alone in this process must equal alone in a
+	// fresh process.
+	if c.C("isolated") != 0 && env.SoloFresh != nil {
+		for _, s := range slots {
+			fresh, err := env.SoloFresh(c, s)
+			if err != nil {
+				panic("isolated baseline: " + err.Error())
+			}
+			var fe []c07entry
+			for _, it := range fresh {
+				e := c07entry{kind: it.Kind, res: it.Res}
+				if it.Kind == "save" && it.Bytes != nil {
+					if cp, err := CanonPackage(it.Bytes); err == nil {
+						e.canon = cp
+					}
+				}
+				fe = append(fe, e)
+			}
+			env.Stats.Probe("documents_compared_with_a_fresh_process")
+			if v := compareObs("this-process-vs-fresh-process", s, fe, solo.bySlot[s]); v != nil {
+				add(v)
+			}
+		}
+		if len(viol) > 0 && c.Lane != "B" {
+			return viol[:1]
+		}
+	}
 
 	// ---- (I) interleaved on one goroutine
 	{
